@@ -12,7 +12,7 @@ def run(res):
     # raises, an on_remove raises at any position of the deletion, an on_remove deletes another entity immediately,
     # a mark on an identifier that never existed ("ghost")
     P = wc.procs({'p1': ('P1', ())}, {'P1': ((), 0)})
-    acts = {'create', 'remove', 'delete', 'process', 'fault', 'proc', 'ghost'} | ({'add'} if th else set())
+    acts = {'create', 'remove', 'delete', 'process', 'fault', 'proc', 'ghost', 'clear'} | ({'add'} if th else set())
     K = wc.base(Acts=acts, Ids={1, 2}, MaxAuto=1, Types=wc.T2, Bases=wc.BASES2, Prios=set(), **wc.comps(C3, falsy={'c1'}), **P)
     wc.check_and_replay(res, 'c05_deferred', K, own, depth_all=4 if th else 3, walks=20000 if th else 3000, walk_len=40)
     # with dispatching disabled the removals of the deferred deletion are postponed like any other callback
